@@ -372,7 +372,58 @@ def count_worker(part, _):
     part.nstates(27)
 
 
+def refused_worker(part, _):
+    """
+    after an error: a coefficient vector the routine refuses (a strided view, real dtype, read-only memory, a wrong length) raises -
+    and the natural retry with a proper copy of the SAME numbers, or any other valid call afterwards, gives what it gives in a process
+    that never saw the refused call
+    """
+    from chmpy.shape.shape_descriptors import make_invariants
+
+    for L in (3, 6, 10):
+        n = (L + 1) ** 2
+        k = np.arange(n)
+        v1 = np.ascontiguousarray((np.sin(1.0 + 1.7 * k) + 0.3) + 1j * np.cos(0.3 + 2.3 * k))
+        v2 = np.ascontiguousarray((np.cos(0.4 + 0.9 * k) - 0.2) + 1j * np.sin(1.1 + 1.3 * k))
+        ref1, ref2 = make_invariants(L, v1), make_invariants(L, v2)
+        wide = np.zeros(2 * n, dtype=np.complex128)
+        wide[::2] = v2
+        ro = v2.copy()
+        ro.setflags(write=False)
+        bad = {"strided view": wide[::2], "real dtype": np.ascontiguousarray(v2.real), "complex64": v2.astype(np.complex64), "read-only": ro,
+               "too short": v2[:n - 3].copy(), "list": list(v2), "2-D": v2.reshape(1, -1)}
+        for bname, b in bad.items():
+            for kinds in ("NP", "P"):
+                part.ev()
+                part.tr(3)
+                case = {"kind": "refused"}
+                try:
+                    make_invariants(L, v1, kinds=kinds)
+                    try:
+                        got_bad = make_invariants(L, b, kinds=kinds)
+                        part.count("refused_call_answered")
+                        # an input that IS accepted must then be answered correctly if it holds the same numbers
+                        if bname in ("strided view", "read-only") and not (np.abs(cube(np.asarray(got_bad)) - cube(make_invariants(L, v2, kinds=kinds))).max() <= 1e-9 * float(np.sum(np.abs(v2) ** 2)) ** 1.5):
+                            part.fail("refused:accepted-wrong", "make_invariants accepts a %s of a vector and answers differently than for a copy of it (L=%d)" % (bname, L), case)
+                    except Exception:
+                        pass
+                    after2 = make_invariants(L, v2, kinds=kinds)
+                    after1 = make_invariants(L, v1, kinds=kinds)
+                except Exception as e:
+                    part.fail("refused:raise", "a valid make_invariants call raised %r after a %s had been refused (L=%d)" % (e, bname, L), case)
+                    continue
+                w2 = ref2 if kinds == "NP" else ref2[L + 1:]
+                w1 = ref1 if kinds == "NP" else ref1[L + 1:]
+                if after2.shape != w2.shape or not np.array_equal(after2, w2) or not np.array_equal(after1, w1):
+                    part.fail("refused:aftermath", "L=%d, kinds=%s: after make_invariants refused a %s, the retry with a proper copy of the same numbers (or the next valid call) "
+                              "differs from the answer given before the refusal (max dev %.3g)" % (L, kinds, bname, float(np.abs(after2 - w2).max()) if after2.shape == w2.shape else np.inf), case)
+                part.outcome(("refused", bname, kinds))
+    part.nstates(3)
+
+
 def worker(part, job):
+    if job[0] == "refused":
+        return refused_worker(part, None)
     if job[0] == "inv":
         job_worker(part, job[1])
     elif job[0] == "local":
@@ -408,6 +459,7 @@ def run(ctx):
     for L in range(1, 13):
         jobs.append(("local", L))
     jobs.append(("count", None))
+    jobs.append(("refused", None))
     cost = {"triples": 50, "pairs": 8, "adjacent": 6, "singles": 1}
     jobs.sort(key=lambda j: -(cost.get(j[1][1], 1) * (j[1][0] + 1) ** 4) if j[0] == "inv" else 0)
     ctx.pmap(worker, jobs)
@@ -423,6 +475,8 @@ def run(ctx):
 
 def replay(ctx, case):
     k = case.get("kind")
+    if k == "refused":
+        return refused_worker(ctx, None)
     if k == "local":
         locality_worker(ctx, case["L"])
     elif k == "count":
